@@ -171,6 +171,45 @@ def sec_sum_rules(rep, tier):
     rep.sample({"sum rule": "GLS/Bjorken, f3_nc.NonSinglet.N3LO nf=4: int_0^1 c3nm3a dz + c3nm3c(0+) computed term by term from the normal form of the real kernel (polynomial in z, ln z, ln(1-z)) == -64 [13841/216 + 44/9 zeta3 - 55/2 zeta5 - nf(10339/1296 + 61/54 zeta3 - 5/3 zeta5) + 115/648 nf^2] within the stated band"})
 
 
+def sec_cc_pairing(rep):
+    """The sum rules are statements about the q - qbar combination: Adler for F2(nu) - F2(nubar), GLS for
+    F3(nu) + F3(nubar), both proportional to sum_q (q - qbar).  They are discharged above for the classes
+    f2_cc.NonSingletOdd / f3_cc.NonSingletOdd; for them to hold for the structure functions, the kernel
+    generator must hand THOSE classes the weights that are antisymmetric under q <-> qbar (and the *Even
+    classes the symmetric ones) -- for every projectile, kind and nf (real light.kernels.generate, CKM
+    weights by their contract values)."""
+    from yadism.coefficient_functions import light
+
+    sy = H.Sy().numeric({})
+    rep.under_contract(light.kernels.generate)
+    for kind in ("F2", "FL", "F3"):
+        for proj in H.PROJECTILES:
+            for nf in (3, 4, 5, 6):
+                rep.cases += 1
+                c = dict(process="CC", projectile=proj, scheme="ZM-VFNS", nf_ff=3, nf=nf, kind=kind, flavor="light", pto=3, pto_evol=2, fonllparts="full")
+                bad, seen = [], set()
+                try:
+                    cfg = H.cell_configs(sy, c, cc_spec=True)
+                    esf = H.FakeESF(sy.x, sy.Q2, H.obs_name(kind, "light"), cfg)
+                    for k in light.kernels.generate(esf, nf):
+                        nm = type(k.coeff).__name__
+                        if nm not in ("NonSingletEven", "NonSingletOdd"):
+                            continue
+                        seen.add(nm)
+                        w = {p_: float(v) for p_, v in k.partons.items()}
+                        sym = all(abs(w.get(q, 0.0) - w.get(-q, 0.0)) < 1e-12 for q in range(1, 7))
+                        anti = all(abs(w.get(q, 0.0) + w.get(-q, 0.0)) < 1e-12 for q in range(1, 7))
+                        nonzero = any(abs(v) > 0 for v in w.values())
+                        if nonzero and not (anti if nm == "NonSingletOdd" else sym):
+                            bad.append((type(k.coeff).__module__.split(".")[-1] + "." + nm, w))
+                    if seen != {"NonSingletEven", "NonSingletOdd"}:
+                        bad.append(("classes handed out", sorted(seen)))
+                except Exception as e:  # noqa
+                    bad.append(("raised", f"{type(e).__name__}: {e}"))
+                ok = not bad
+                rep.add(ob_eval(f"C04/cc-pairing/{kind}/{proj}/nf={nf}: NonSingletOdd carries the q - qbar weights, NonSingletEven the q + qbar ones", ok, detail="" if ok else str(bad[0])[:400], inputs={} if ok else {"kind": kind, "projectile": proj, "nf": nf, "observed (class, weights)": str(bad[0])[:500]}, replay={"confirmed": True, "python": f"light.kernels.generate(esf({kind}_light, CC, {proj}), {nf})"}))
+
+
 def sec_selfcheck(rep, seed):
     # table entries against closed forms
     checks = [
@@ -198,7 +237,7 @@ def run(rep, tier, seed, only=None):
         "the first moment of a plus distribution vanishes; loc(0+) is the delta coefficient (C03)",
         "only the constraints named by the property are claimed (first moments; no higher Mellin N); the GLS coefficient at a_s^3 is checked as its two pieces: Bjorken-like non-singlet and light-by-light valence (Larin-Vermaseren)",
     )
-    for nm, f in (("closed", sec_closed_forms), ("sum", lambda r: sec_sum_rules(r, tier))):
+    for nm, f in (("closed", sec_closed_forms), ("sum", lambda r: sec_sum_rules(r, tier)), ("pairing", sec_cc_pairing), ("special", H.special_functions_contract)):
         if only and only not in nm:
             continue
         rep.add(guarded(f"C04/{nm}", lambda f=f: (f(rep), [])[1]))
